@@ -636,3 +636,120 @@ def built_kinds(node, _seen=None):
     if 'token' in ks and len(ks) > 1:
         ks = ks - {'token'}
     return ks
+
+
+# ----------------------------------------------------------------------------------
+# PEG re-validation: pyparsing's commitment semantics on the *model*, for concrete witness strings
+# ----------------------------------------------------------------------------------
+
+class Peg(object):
+    """Interpreter of the extracted grammar graph under pyparsing's matching discipline: every element
+    yields at most one match (Regex: python's own leftmost match; Or: longest, list order on ties;
+    MatchFirst: first; repeats greedy; no back-tracking into a completed element)."""
+
+    WSCHARS = ' \t\n\r'
+
+    def __init__(self, max_depth=60):
+        self.max_depth = max_depth
+        self._re = {}
+
+    def match(self, node, s, pos=0, depth=0):
+        """end position of the match of `node` at `pos`, or None"""
+        if depth > self.max_depth:
+            return None
+        if not node.leave_ws and node.kind not in ('And', 'Or', 'MatchFirst', 'Optional', 'ZeroOrMore', 'OneOrMore',
+                                                    'Suppress', 'Group', 'Forward', 'DelimitedList', 'Empty'):
+            while pos < len(s) and s[pos] in self.WSCHARS:
+                pos += 1
+        k = node.kind
+        d = node.data
+        if k == 'Regex':
+            import re as _re
+            key = (d['pattern'], d.get('flags', 0))
+            if key not in self._re:
+                self._re[key] = _re.compile(*key)
+            mo = self._re[key].match(s, pos)
+            return mo.end() if mo else None
+        if k == 'Literal':
+            return pos + len(d['s']) if s.startswith(d['s'], pos) else None
+        if k == 'CaselessLiteral':
+            return pos + len(d['s']) if s[pos:pos + len(d['s'])].upper() == d['s'].upper() else None
+        if k == 'Word':
+            if pos >= len(s) or s[pos] not in d['init']:
+                return None
+            end = pos + 1
+            mx = d['max']
+            while end < len(s) and s[end] in d['body'] and (mx is None or end - pos < mx):
+                end += 1
+            if end - pos < d['min']:
+                return None
+            return end
+        if k == 'Empty':
+            return pos
+        if k == 'And':
+            for c in node.children:
+                pos = self.match(c, s, pos, depth + 1)
+                if pos is None:
+                    return None
+            return pos
+        if k == 'Or':
+            best = None
+            for c in node.children:
+                e = self.match(c, s, pos, depth + 1)
+                if e is not None and (best is None or e > best):
+                    best = e
+            return best
+        if k == 'MatchFirst':
+            for c in node.children:
+                e = self.match(c, s, pos, depth + 1)
+                if e is not None:
+                    return e
+            return None
+        if k == 'Optional':
+            e = self.match(node.children[0], s, pos, depth + 1)
+            return pos if e is None else e
+        if k in ('ZeroOrMore', 'OneOrMore'):
+            n = 0
+            while True:
+                e = self.match(node.children[0], s, pos, depth + 1)
+                if e is None or e == pos:
+                    break
+                pos = e
+                n += 1
+            if k == 'OneOrMore' and n == 0:
+                return None
+            return pos
+        if k in ('Combine', 'Suppress', 'Group'):
+            return self.match(node.children[0], s, pos, depth + 1)
+        if k == 'DelimitedList':
+            e = self.match(node.children[0], s, pos, depth + 1)
+            if e is None:
+                return None
+            pos = e
+            while True:
+                e1 = self.match(node.children[1], s, pos, depth + 1)
+                if e1 is None:
+                    break
+                e2 = self.match(node.children[0], s, e1, depth + 1)
+                if e2 is None:
+                    break
+                pos = e2
+            return pos
+        if k == 'Forward':
+            if node.content is None:
+                return None
+            return self.match(node.content, s, pos, depth + 1)
+        return None
+
+    def winner(self, alts, or_kind, s):
+        """index of the alternative pyparsing selects for the text `s` at position 0, and its end."""
+        best = None
+        for i, a in enumerate(alts):
+            e = self.match(a, s, 0)
+            if e is None:
+                continue
+            if or_kind == 'MatchFirst':
+                return i, e
+            if best is None or e > best[1]:
+                best = (i, e)
+        return best if best else (None, None)
